@@ -22,7 +22,7 @@ import diskcache.fanout as fanout_mod
 ID = 'C13'
 COQ_PROP = 'C13'
 LEVEL = 'proof'
-TRANSLATE = ['fanout', 'disk']
+TRANSLATE = ['fanout', 'disk', 'format']     # format: __getstate__ / __setstate__ / __init__ parameters (pickled handles)
 TRUSTED = [
     'coq/model/Fanout.v: the dictionary-with-expiry that stands for one Cache (written from the documentation; Cache itself is C03) and the '
     'interpreter of the generated FanoutCache table; model shard/hash/shard_dir/adler32 compared with the implementation on every generated key',
@@ -653,7 +653,11 @@ from diskcache import core
 assert os.path.realpath(os.path.dirname(os.path.dirname(core.__file__))) == os.path.realpath(sys.argv[1]), core.__file__
 mode, directory, shards = sys.argv[2], sys.argv[3], int(sys.argv[4])
 keys = pickle.loads(bytes.fromhex(sys.stdin.read()))
-fc = diskcache.FanoutCache(directory, shards=shards, eviction_policy='none')
+if mode == 'unpickle':
+    # the handle itself travels (as multiprocessing does with arguments): it must come back with the same shard count
+    fc = pickle.loads(bytes.fromhex(sys.argv[5]))
+else:
+    fc = diskcache.FanoutCache(directory, shards=shards, eviction_policy='none')
 out = {'hash': [], 'dbkey': [], 'found': [], 'seed': os.environ.get('PYTHONHASHSEED')}
 for i, k in enumerate(keys):
     out['hash'].append(core.Disk.hash(fc.disk, k))
@@ -664,17 +668,20 @@ for i, k in enumerate(keys):
         out['found'].append(True)
     else:
         out['found'].append(fc.get(k, default=None, retry=True) == i)
+if mode == 'unpickle':
+    fc.set('written-through-the-unpickled-handle', 1, retry=True)
+    out['len'] = len(fc)
 fc.close()
 print(json.dumps(out))
 '''
 
 
-def run_child(seed, mode, directory, shards, keys):
+def run_child(seed, mode, directory, shards, keys, handle_hex=None):
     env = dict(os.environ)
     env['PYTHONHASHSEED'] = seed
     env['PYTHONPATH'] = fw.REPO
     env['PYTHONDONTWRITEBYTECODE'] = '1'
-    p = subprocess.run([fw.PY, '-c', CHILD, fw.REPO, mode, directory, str(shards)], input=pickle.dumps(keys, protocol=4).hex(),
+    p = subprocess.run([fw.PY, '-c', CHILD, fw.REPO, mode, directory, str(shards)] + ([handle_hex] if handle_hex else []), input=pickle.dumps(keys, protocol=4).hex(),
                        stdout=subprocess.PIPE, stderr=subprocess.PIPE, text=True, env=env, timeout=300)
     if p.returncode != 0:
         raise RuntimeError('child interpreter failed: ' + p.stderr[-800:])
@@ -752,6 +759,39 @@ def monitor_processes(ctx, res, hist):
                                                {'check': 'hashseed_key', 'key': repr(k), 'key_index': i, 'db_keys_by_seed': dict(zip(SEEDS, dbs)),
                                                 'found_by_seed': dict(zip(SEEDS, [o['found'][i] for o in outs2]))}))
     res.witnessed['hashseed_dependent_pickle'] = seen
+
+
+def monitor_pickled_handle(ctx, res, hist):
+    """A FanoutCache handle that is pickled and unpickled in another interpreter (what multiprocessing does with an
+    argument) must route exactly as the original: same shard count, every item found, nothing outside the shard
+    directories, and what it writes is found by a handle opened in the ordinary way."""
+    keys = fixed_keys()[:40]
+    for n in [c for c in SHARD_COUNTS if c != 8] + [8]:
+        d = ctx.scratch('c13pk')
+        fc = diskcache.FanoutCache(d, shards=n, eviction_policy='none')
+        for i, k in enumerate(keys):
+            fc.set(k, i, retry=True)
+        handle = pickle.dumps(fc).hex()
+        dirs_before = shard_dirs(d)
+        fc.close()
+        case = {'check': 'pickled_handle', 'shards': n, 'keys': len(keys)}
+        res.count(['pickled-handle', n], nontrivial=True)
+        try:
+            o = run_child(SEEDS[-1], 'unpickle', d, n, keys, handle_hex=handle)
+        except RuntimeError as e:
+            res.violations.append(fw.Violation('unpickled_handle_unusable', 'FanoutCache(shards=%d) pickled and unpickled in another interpreter: %s' % (n, str(e)[-200:]), case))
+            continue
+        missing = [i for i, f in enumerate(o['found']) if not f and not any(equal_pair_of_finding(keys[i], k2) for k2 in keys)]
+        fc2 = diskcache.FanoutCache(d, shards=n, eviction_policy='none')
+        back = fc2.get('written-through-the-unpickled-handle', default=None, retry=True)
+        total = len(fc2)
+        fc2.close()
+        dirs_after = shard_dirs(d)
+        hist.setdefault('pickled_handles', []).append({'shards': n, 'missing': len(missing), 'dirs': len(dirs_after)})
+        if missing or back != 1 or dirs_after != dirs_before or o.get('len') != total:
+            res.violations.append(fw.Violation('unpickled_handle_routes_differently', 'FanoutCache(shards=%d) pickled and unpickled in another interpreter: %d of %d items not found '
+                                               'through it; the item it wrote is %s by an ordinary handle; shard directories %d -> %d; len %r vs %r' % (
+                                                   n, len(missing), len(keys), 'found' if back == 1 else 'NOT found', len(dirs_before), len(dirs_after), o.get('len'), total), case))
 
 
 def witness_int_float():
@@ -969,6 +1009,7 @@ def run(ctx, big=False):
             uniq.append(k)
     monitor_placement(ctx, res, uniq, hist, obs)
     monitor_processes(ctx, res, hist)
+    monitor_pickled_handle(ctx, res, hist)
     if not ctx.search_mode:
         correspondence(ctx, res, obs, 900 if ctx.quick else 4000)
         model_histories(ctx, res, modelcases, 64 if ctx.quick else 400)
